@@ -14,6 +14,9 @@ package main
 // harness-only annotations start with '~' and are stripped before the line goes to the model:
 //   <n>~i   no defgeneric form: the first defmethod creates the generic function
 //   d…~b    the method's parameters specialised on t are written as bare symbols
+//   d…~g    the method is defined from Go (generic.DefCallerMethod) instead of a defmethod form
+//   <n>~m<k> the first k operations (defmethods) are :method options of the defgeneric form
+//   <n>~o   every lambda list ends in `&optional o`; every second call passes a value for it
 //
 // Bounded-exhaustive families run sharded over worker subprocesses (this binary re-executed with
 // VH_C10_WORKER=1): interpreter state is process-global and single-threaded workers keep the
@@ -25,6 +28,7 @@ import (
 	"fmt"
 	"os"
 	"os/exec"
+	"regexp"
 	"runtime"
 	"sort"
 	"strconv"
@@ -33,6 +37,7 @@ import (
 	"sync/atomic"
 
 	"github.com/ohler55/slip"
+	"github.com/ohler55/slip/pkg/generic"
 	"verif/harness/lib"
 )
 
@@ -55,6 +60,8 @@ type c10World struct {
 	log       []string
 	gensym    int
 	goBodies  bool                     // :around bodies are one call of the Go primitive c10-ar (concurrent facets)
+	optLL     bool                     // lambda lists end in &optional o (histories annotated ~o)
+	optArg    bool                     // the call being rendered passes a value for o
 	conc      map[slip.Object][]string // concurrent facet: per-call logs keyed by the first argument object
 	concMu    sync.Mutex
 }
@@ -173,7 +180,8 @@ func c10Init() *c10World {
 	}
 	w.intern("t") // class 0
 	// the class chain of the property's quantifier and the built-in numeric chain
-	for _, n := range []string{"c10a", "c10b", "c10c", "c10d", "standard-object", "fixnum", "integer", "rational", "real", "number"} {
+	for _, n := range []string{"c10a", "c10b", "c10c", "c10d", "standard-object", "fixnum", "integer", "rational", "real", "number",
+		"float", "c10a-ext", "c10p1", "c10p2", "c10m", "c10l"} {
 		w.intern(n)
 	}
 	must := func(src string) slip.Object {
@@ -188,9 +196,12 @@ func c10Init() *c10World {
 	must("(defclass c10b (c10a) ())")
 	must("(defclass c10c (c10b) ())")
 	must("(defclass c10d (c10c) ())")
+	// a class whose name starts with the name of one of its superclasses (and double-float / float among
+	// the built-in ones): a dispatcher that handles class names as text must not confuse them
+	must("(defclass c10a-ext (c10d) ())")
 	args := []struct{ v, src string }{
 		{"anil", "nil"}, {"ia", "(make-instance 'c10a)"}, {"ib", "(make-instance 'c10b)"}, {"ic", "(make-instance 'c10c)"},
-		{"id", "(make-instance 'c10d)"}, {"n7", "7"}, {"nbig", "100000000000000000000000"}, {"nrat", "1/2"}, {"nflo", "1.5d0"},
+		{"id", "(make-instance 'c10d)"}, {"ie", "(make-instance 'c10a-ext)"}, {"n7", "7"}, {"nbig", "100000000000000000000000"}, {"nrat", "1/2"}, {"nflo", "1.5d0"},
 		{"nstr", "\"s\""},
 	}
 	for _, a := range args {
@@ -236,7 +247,8 @@ func (w *c10World) chainProblem() string {
 		check("c10a", "c10a", "standard-object", "t"),
 		check("fixnum", "fixnum", "integer", "rational", "real", "number", "t"),
 		check("ratio", "ratio", "rational", "real", "number", "t"),
-		check("double-float", "double-float", "real", "number", "t"),
+		check("double-float", "double-float", "float", "real", "number", "t"),
+		check("c10a-ext", "c10a-ext", "c10d", "c10c", "c10b", "c10a", "standard-object", "t"),
 		check("bignum", "bignum", "integer", "rational", "real", "number", "t"),
 	} {
 		if p != "" {
@@ -250,18 +262,21 @@ func (w *c10World) chainProblem() string {
 // histories
 
 type c10Op struct {
-	kind byte  // 'd' defmethod, 'r' remove-method, 'c' call
-	qual byte  // p b a r
-	key  []int // specializer class ids (d, r) or argument class ids (c)
-	id   int
-	mode byte // g d s (around bodies)
-	bare bool // t specializers written as bare parameter symbols
+	kind  byte  // 'd' defmethod, 'r' remove-method, 'c' call, 'm' compute-applicable-methods
+	qual  byte  // p b a r
+	key   []int // specializer class ids (d, r) or argument class ids (c)
+	id    int
+	mode  byte // g d s (around bodies)
+	bare  bool // t specializers written as bare parameter symbols
+	viaGo bool // defined through generic.DefCallerMethod
 }
 
 type c10Hist struct {
-	n        int
-	implicit bool // no defgeneric form
-	ops      []c10Op
+	n         int
+	implicit  bool // no defgeneric form
+	inGeneric int  // the first inGeneric operations (all defmethod) are written as :method options of the defgeneric form
+	optional  bool // every lambda list ends in &optional o
+	ops       []c10Op
 }
 
 func c10Join(xs []int) string {
@@ -278,27 +293,42 @@ func (op c10Op) word() string {
 		s := fmt.Sprintf("d%c:%s:%d:%c", op.qual, c10Join(op.key), op.id, op.mode)
 		if op.bare {
 			s += "~b"
+		} else if op.viaGo {
+			s += "~g"
 		}
 		return s
 	case 'r':
 		return fmt.Sprintf("r%c:%s", op.qual, c10Join(op.key))
+	case 'm':
+		return "m:" + c10Join(op.key)
 	}
 	return "c:" + c10Join(op.key)
 }
+
+// observes: the operation produces an outcome word (a call or compute-applicable-methods)
+func (op c10Op) observes() bool { return op.kind == 'c' || op.kind == 'm' }
 
 // line renders the history as a worker/replay line (with '~' annotations).
 func (h c10Hist) line(w *c10World) string {
 	var b strings.Builder
 	b.WriteString("disp run ")
 	b.WriteString(strconv.Itoa(h.n))
-	if h.implicit {
-		b.WriteString("~i")
+	if h.implicit || 0 < h.inGeneric || h.optional {
+		b.WriteByte('~')
+		if h.implicit {
+			b.WriteByte('i')
+		} else if 0 < h.inGeneric {
+			fmt.Fprintf(&b, "m%d", h.inGeneric)
+		}
+		if h.optional {
+			b.WriteByte('o')
+		}
 	}
 	b.WriteString(" 0 ")
 	// the class table: every argument class used by a call
 	used := map[int]bool{}
 	for _, op := range h.ops {
-		if op.kind == 'c' {
+		if op.observes() {
 			for _, c := range op.key {
 				used[c] = true
 			}
@@ -358,12 +388,29 @@ func c10Parse(line string) (h c10Hist, ok bool) {
 		return h, false
 	}
 	nw := words[2]
-	if strings.HasSuffix(nw, "~i") {
-		h.implicit = true
-		nw = strings.TrimSuffix(nw, "~i")
+	if j := strings.IndexByte(nw, '~'); 0 <= j {
+		ann := nw[j+1:]
+		if strings.HasSuffix(ann, "o") {
+			h.optional = true
+			ann = strings.TrimSuffix(ann, "o")
+		}
+		switch {
+		case ann == "":
+		case ann == "i":
+			h.implicit = true
+		case strings.HasPrefix(ann, "m"):
+			k, err := strconv.Atoi(ann[1:])
+			if err != nil || k < 0 || len(words)-5 < k {
+				return h, false
+			}
+			h.inGeneric = k
+		default:
+			return h, false
+		}
+		nw = nw[:j]
 	}
 	n, err := strconv.Atoi(nw)
-	if err != nil {
+	if err != nil || n < 1 || 3 < n {
 		return h, false
 	}
 	h.n = n
@@ -372,6 +419,9 @@ func c10Parse(line string) (h c10Hist, ok bool) {
 		if strings.HasSuffix(w, "~b") {
 			op.bare = true
 			w = strings.TrimSuffix(w, "~b")
+		} else if strings.HasSuffix(w, "~g") {
+			op.viaGo = true
+			w = strings.TrimSuffix(w, "~g")
 		}
 		parts := strings.Split(w, ":")
 		switch {
@@ -388,8 +438,8 @@ func c10Parse(line string) (h c10Hist, ok bool) {
 			if op.key, ok = c10Ints(parts[1]); !ok {
 				return h, false
 			}
-		case len(parts) == 2 && parts[0] == "c":
-			op.kind = 'c'
+		case len(parts) == 2 && (parts[0] == "c" || parts[0] == "m"):
+			op.kind = parts[0][0]
 			if op.key, ok = c10Ints(parts[1]); !ok {
 				return h, false
 			}
@@ -400,6 +450,11 @@ func c10Parse(line string) (h c10Hist, ok bool) {
 			return h, false
 		}
 		h.ops = append(h.ops, op)
+	}
+	for _, op := range h.ops[:h.inGeneric] {
+		if op.kind != 'd' {
+			return h, false
+		}
 	}
 	return h, true
 }
@@ -439,6 +494,9 @@ func (w *c10World) form(g string, n int, op c10Op) string {
 		if q != "" {
 			q += " "
 		}
+		if w.optLL {
+			ll = append(ll, "&optional o")
+		}
 		return fmt.Sprintf("(defmethod %s %s(%s) %s)", g, q, strings.Join(ll, " "), body)
 	case 'r':
 		var sp []string
@@ -457,16 +515,134 @@ func (w *c10World) form(g string, n int, op c10Op) string {
 		}
 		as = append(as, a.varName)
 	}
+	if op.kind == 'm' {
+		return fmt.Sprintf("(compute-applicable-methods '%s (list %s))", g, strings.Join(as, " "))
+	}
+	if w.optArg {
+		as = append(as, "99")
+	}
 	return fmt.Sprintf("(%s %s)", g, strings.Join(as, " "))
+}
+
+// defineViaGo defines the method of a defmethod operation through the Go interface
+// generic.DefCallerMethod: the caller is the lambda of the same body, the specializers are the
+// Type fields of the FuncDoc arguments.
+func (w *c10World) defineViaGo(g string, n int, op c10Op) lib.Outcome {
+	src := w.form(g, n, c10Op{kind: 'd', qual: 'p', key: op.key, id: op.id, mode: op.mode})
+	if op.qual == 'r' {
+		src = w.form(g, n, c10Op{kind: 'd', qual: 'r', key: op.key, id: op.id, mode: op.mode})
+	}
+	// (defmethod g [q] (ll) body…) → the body after the lambda list
+	i := strings.Index(src, ") ")
+	for depth, j := 0, strings.Index(src, "("+"("); 0 <= j && j < len(src); j++ { // find the end of the lambda list
+		switch src[j] {
+		case '(':
+			depth++
+		case ')':
+			depth--
+			if depth == 0 {
+				i = j
+				j = len(src)
+			}
+		}
+	}
+	params := []string{"x", "y", "z"}[:n]
+	lsrc := fmt.Sprintf("(lambda (%s%s) %s", strings.Join(params, " "), map[bool]string{true: " &optional o", false: ""}[w.optLL], src[i+2:])
+	return lib.Protect(func() slip.Object {
+		lam, _ := w.scope.Eval(slip.ReadString(lsrc, w.scope)[0], 0).(*slip.Lambda)
+		if lam == nil {
+			panic("c10: not a lambda: " + lsrc)
+		}
+		fd := &slip.FuncDoc{Name: g, Kind: slip.MethodSymbol, Return: "object"}
+		for k, c := range op.key {
+			fd.Args = append(fd.Args, &slip.DocArg{Name: params[k], Type: w.className[c]})
+		}
+		if w.optLL {
+			fd.Args = append(fd.Args, &slip.DocArg{Name: "&optional"}, &slip.DocArg{Name: "o"})
+		}
+		lam.Doc = fd
+		generic.DefCallerMethod(c10QualName[op.qual], lam, fd)
+		return nil
+	})
+}
+
+var c10IDRe = regexp.MustCompile(`c10-(?:tr|en|ar) (\d+)`)
+
+// c10MethodWord renders the list returned by compute-applicable-methods as the model does:
+// M<q><id>,… with the qualifier read from the one daemon each returned method holds and the id
+// from the text of its body.
+func c10MethodWord(v slip.Object) string {
+	list, ok := v.(slip.List)
+	if !ok && v != nil {
+		return "M?not-a-list"
+	}
+	var parts []string
+	for _, e := range list {
+		m, ok := e.(*slip.Method)
+		if !ok || len(m.Combinations) != 1 {
+			parts = append(parts, "?")
+			continue
+		}
+		cb := m.Combinations[0]
+		q := ""
+		var caller slip.Caller
+		for _, d := range []struct {
+			q string
+			c slip.Caller
+		}{{"p", cb.Primary}, {"b", cb.Before}, {"a", cb.After}, {"r", cb.Wrap}} {
+			if d.c != nil {
+				q += d.q
+				caller = d.c
+			}
+		}
+		id := "?"
+		if lam, ok := caller.(*slip.Lambda); ok {
+			var b []byte
+			for _, f := range lam.Forms {
+				b = slip.ObjectAppend(b, f)
+				b = append(b, ' ')
+			}
+			if mm := c10IDRe.FindSubmatch(b); mm != nil {
+				id = string(mm[1])
+			}
+		}
+		parts = append(parts, q+id)
+	}
+	if len(parts) == 0 {
+		return "M-"
+	}
+	return "M" + strings.Join(parts, ",")
+}
+
+// the defgeneric form of a history, with its first inGeneric methods as :method options
+func (w *c10World) defgeneric(g string, h c10Hist) string {
+	var b strings.Builder
+	fmt.Fprintf(&b, "(defgeneric %s (%s%s)", g, strings.Join([]string{"x", "y", "z"}[:h.n], " "), map[bool]string{true: " &optional o", false: ""}[h.optional])
+	for _, op := range h.ops[:h.inGeneric] {
+		b.WriteString(" (:method ")
+		b.WriteString(strings.TrimPrefix(w.form(g, h.n, op), "(defmethod "+g+" "))
+	}
+	b.WriteString(")")
+	return b.String()
 }
 
 func (w *c10World) forms(g string, h c10Hist) []string {
 	var out []string
+	w.optLL = h.optional
+	defer func() { w.optLL, w.optArg = false, false }()
 	if !h.implicit {
-		out = append(out, fmt.Sprintf("(defgeneric %s (%s))", g, strings.Join([]string{"x", "y", "z"}[:h.n], " ")))
+		out = append(out, w.defgeneric(g, h))
 	}
-	for _, op := range h.ops {
-		out = append(out, w.form(g, h.n, op))
+	for i, op := range h.ops {
+		if i < h.inGeneric {
+			continue
+		}
+		w.optArg = h.optional && i%2 == 1
+		f := w.form(g, h.n, op)
+		if op.kind == 'd' && op.viaGo {
+			f = "#| from Go: generic.DefCallerMethod with the lambda and specializers of |# " + f
+		}
+		out = append(out, f)
 	}
 	return out
 }
@@ -477,14 +653,34 @@ func (w *c10World) runImpl(h c10Hist) string {
 	w.gensym++
 	g := fmt.Sprintf("c10g%d", w.gensym)
 	words := []string{"ok"}
+	w.optLL = h.optional
+	defer func() { w.optLL, w.optArg = false, false }()
 	if !h.implicit {
-		o := lib.EvalString(w.scope, fmt.Sprintf("(defgeneric %s (%s))", g, strings.Join([]string{"x", "y", "z"}[:h.n], " ")))
+		o := lib.EvalString(w.scope, w.defgeneric(g, h))
 		if !o.Ok {
 			words = append(words, "Xdefgeneric:"+o.Class)
 		}
 	}
 	for i, op := range h.ops {
+		if i < h.inGeneric {
+			continue
+		}
+		w.optArg = h.optional && i%2 == 1
+		if op.kind == 'd' && op.viaGo {
+			if o := w.defineViaGo(g, h.n, op); !o.Ok {
+				words = append(words, fmt.Sprintf("X%d:%s", i, o.Class))
+			}
+			continue
+		}
 		src := w.form(g, h.n, op)
+		if op.kind == 'm' {
+			if o := lib.EvalString(w.scope, src); o.Ok {
+				words = append(words, c10MethodWord(o.Value))
+			} else {
+				words = append(words, "M!"+o.Class)
+			}
+			continue
+		}
 		if op.kind != 'c' {
 			if o := lib.EvalString(w.scope, src); !o.Ok {
 				words = append(words, fmt.Sprintf("X%d:%s", i, o.Class))
@@ -534,7 +730,7 @@ func c10Canon(h c10Hist, model string) string {
 		if strings.HasSuffix(wd, "!nn") {
 			wd = strings.TrimSuffix(wd, "!nn") + "!error"
 		}
-		if 0 < len(direct) {
+		if 0 < len(direct) && !strings.HasPrefix(wd, "M") {
 			cut := strings.LastIndexAny(wd, "=!")
 			evs := strings.Split(wd[:cut], ",")
 			for j, e := range evs {
@@ -580,6 +776,9 @@ func c10Entered(outcome string) (ids []string, nps []string, leaves []string, re
 }
 
 func c10Aspect(h c10Hist, upto int, impl, model string) string {
+	if h.ops[upto].kind == 'm' {
+		return "applicable-methods"
+	}
 	ii, inp, il, ir := c10Entered(impl)
 	mi, mnp, ml, mr := c10Entered(model)
 	live := map[string]bool{} // ids currently in the table
@@ -655,7 +854,7 @@ func c10Aspect(h c10Hist, upto int, impl, model string) string {
 func c10Signature(w *c10World, h c10Hist, callIdx int, aspect string) string {
 	last, lastAt := "none", -1
 	for i := callIdx - 1; 0 <= i; i-- {
-		if op := h.ops[i]; op.kind != 'c' {
+		if op := h.ops[i]; !op.observes() {
 			q := map[byte]string{'p': "primary", 'b': "before", 'a': "after", 'r': "around"}[op.qual]
 			k := "defmethod"
 			if op.kind == 'r' {
@@ -746,6 +945,10 @@ type c10Alphabet struct {
 func c10D(q byte, mode byte, key ...string) c10Sym {
 	return c10Sym{kind: 'd', qual: q, key: key, mode: mode}
 }
+func c10Db(q byte, mode byte, key ...string) c10Sym {
+	return c10Sym{kind: 'd', qual: q, key: key, mode: mode, bare: true}
+}
+func c10M(key ...string) c10Sym         { return c10Sym{kind: 'm', key: key} }
 func c10R(q byte, key ...string) c10Sym { return c10Sym{kind: 'r', qual: q, key: key} }
 func c10C(key ...string) c10Sym         { return c10Sym{kind: 'c', key: key} }
 
@@ -776,6 +979,19 @@ func c10Alphabets() []c10Alphabet {
 			c10D('p', 's', "t", "t"), c10R('p', "t", "t"), c10D('p', 's', "c10b", "t"), c10R('p', "c10b", "t"),
 			c10D('b', 's', "t", "t"), c10R('b', "t", "t"), c10D('r', 'd', "t", "c10b"),
 			c10C("c10b", "c10b"), c10C("t", "t"), c10C("c10a", "fixnum")}},
+		// three required arguments, the middle one never specialised (written as a bare parameter)
+		{"three-args-3", 3, []c10Sym{
+			c10Db('p', 's', "c10a", "t", "c10c"), c10Db('p', 's', "c10c", "t", "c10a"), c10Db('r', 'g', "t", "t", "c10b"),
+			c10Db('b', 's', "c10b", "t", "t"), c10R('p', "c10a", "t", "c10c"), c10R('r', "t", "t", "c10b"),
+			c10C("c10d", "fixnum", "c10d"), c10C("c10b", "t", "c10d")}},
+		// specializers whose name is part of the name of a more specific class of the argument
+		{"name-substring-1", 1, []c10Sym{
+			c10D('p', 's', "float"), c10R('p', "float"), c10D('p', 's', "real"), c10D('r', 'g', "c10a"), c10R('r', "c10a"),
+			c10D('p', 's', "t"), c10C("double-float"), c10C("c10a-ext")}},
+		// compute-applicable-methods between the mutations and calls
+		{"methods-query-1", 1, []c10Sym{
+			c10D('p', 's', "c10a"), c10D('p', 's', "c10c"), c10D('r', 'g', "c10b"), c10D('b', 's', "c10c"), c10D('a', 's', "c10a"),
+			c10R('p', "c10c"), c10M("c10d"), c10C("c10d")}},
 	}
 }
 
@@ -841,10 +1057,13 @@ func c10EnumDigits(a c10Alphabet, length, index int) []int {
 // random long history over the full alphabet of a world
 func (w *c10World) randomHistory(r *lib.Rng) c10Hist {
 	n := 1 + r.Intn(2)
+	if r.Chance(20) {
+		n = 3
+	}
 	var specs, argc []int
 	switch r.Intn(4) {
 	case 0: // numeric chain
-		for _, s := range []string{"fixnum", "integer", "rational", "real", "number", "t"} {
+		for _, s := range []string{"fixnum", "integer", "rational", "real", "number", "t", "float"} {
 			specs = append(specs, w.classID[s])
 		}
 		for _, s := range []string{"fixnum", "bignum", "ratio", "double-float", "string"} {
@@ -864,7 +1083,7 @@ func (w *c10World) randomHistory(r *lib.Rng) c10Hist {
 		if r.Chance(30) {
 			specs = append(specs, w.classID["standard-object"])
 		}
-		for _, s := range []string{"c10a", "c10b", "c10c", "c10d", "c10d", "fixnum", "t"} {
+		for _, s := range []string{"c10a", "c10b", "c10c", "c10d", "c10d", "fixnum", "t", "c10a-ext"} {
 			argc = append(argc, w.classID[s])
 		}
 	}
@@ -891,7 +1110,11 @@ func (w *c10World) randomHistory(r *lib.Rng) c10Hist {
 			for j := range k {
 				k[j] = argc[r.Intn(len(argc))]
 			}
-			h.ops = append(h.ops, c10Op{kind: 'c', key: k})
+			kind := byte('c')
+			if r.Chance(12) {
+				kind = 'm'
+			}
+			h.ops = append(h.ops, c10Op{kind: kind, key: k})
 		case x < pCall+pRemove:
 			h.ops = append(h.ops, c10Op{kind: 'r', qual: "pbar"[r.Intn(4)], key: tuples[r.Intn(len(tuples))]})
 		default:
@@ -908,6 +1131,9 @@ func (w *c10World) randomHistory(r *lib.Rng) c10Hist {
 				op.mode = 's'
 			}
 			op.bare = r.Chance(20)
+			if !op.bare && r.Chance(12) {
+				op.viaGo = true
+			}
 			h.ops = append(h.ops, op)
 		}
 	}
@@ -920,7 +1146,20 @@ func (w *c10World) randomHistory(r *lib.Rng) c10Hist {
 	}()})
 	if h.ops[0].kind == 'd' && r.Chance(25) {
 		h.implicit = true
+	} else if r.Chance(25) {
+		// the leading defmethods (some of them) as :method options of the defgeneric form
+		lead := 0
+		for lead < len(h.ops) && h.ops[lead].kind == 'd' {
+			lead++
+		}
+		if 0 < lead {
+			h.inGeneric = 1 + r.Intn(lead)
+			for i := 0; i < h.inGeneric; i++ {
+				h.ops[i].viaGo = false
+			}
+		}
 	}
+	h.optional = r.Chance(15)
 	return h
 }
 
@@ -929,7 +1168,7 @@ func (w *c10World) randomHistory(r *lib.Rng) c10Hist {
 func (h c10Hist) nontrivial() bool {
 	muts, seenCall, mutAfterCall := 0, false, false
 	for _, op := range h.ops {
-		if op.kind == 'c' {
+		if op.observes() {
 			if 2 <= muts && mutAfterCall {
 				return true
 			}
@@ -962,6 +1201,10 @@ func c10Worker() {
 		}
 		if strings.HasPrefix(sc.Text(), "race ") {
 			fmt.Fprintln(out, w.runRace(sc.Text()))
+			continue
+		}
+		if strings.HasPrefix(sc.Text(), "dyn ") {
+			fmt.Fprintln(out, w.runDyn(sc.Text()))
 			continue
 		}
 		h, ok := c10Parse(sc.Text())
@@ -1021,19 +1264,51 @@ func c10RunChunk(c *lib.Ctx, lines []string) []c10Mismatch {
 	}
 	var model, impl []string
 	var errM, errI error
+	runWorker := func(ls []string) ([]string, error) {
+		cmd := exec.Command(os.Args[0], "C10", "--root", c.Root)
+		cmd.Env = append(os.Environ(), "VH_C10_WORKER=1")
+		return c10Pipe(cmd, ls)
+	}
 	var wg sync.WaitGroup
 	wg.Add(2)
 	go func() {
 		defer wg.Done()
-		model, errM = c10Pipe(exec.Command(c.ModelBin), mlines)
+		// the model driver is deterministic: a failure is the machine (fork, memory), try again
+		for try := 0; try < 3; try++ {
+			if model, errM = c10Pipe(exec.Command(c.ModelBin), mlines); errM == nil {
+				break
+			}
+		}
 	}()
 	go func() {
 		defer wg.Done()
-		cmd := exec.Command(os.Args[0], "C10", "--root", c.Root)
-		cmd.Env = append(os.Environ(), "VH_C10_WORKER=1")
-		impl, errI = c10Pipe(cmd, lines)
+		for try := 0; try < 3; try++ {
+			if impl, errI = runWorker(lines); errI == nil {
+				break
+			}
+		}
 	}()
 	wg.Wait()
+	if errM == nil && errI != nil {
+		// The single-threaded worker failed three times on this chunk: a history that terminates
+		// the interpreter process is a failing input, not a machinery error. Locate it by bisection.
+		lo, hi := 0, len(lines)
+		for 1 < hi-lo {
+			mid := (lo + hi) / 2
+			if _, err := runWorker(lines[lo:mid]); err != nil {
+				hi = mid
+			} else if _, err := runWorker(lines[mid:hi]); err != nil {
+				lo = mid
+			} else {
+				break // only fails in the company of the other half
+			}
+		}
+		if hi-lo == 1 {
+			if _, err := runWorker(lines[lo:hi]); err != nil {
+				return []c10Mismatch{{lines[lo], "crash " + strings.ReplaceAll(strings.SplitN(err.Error(), "\n", 2)[0], " ", "_"), "ok"}}
+			}
+		}
+	}
 	if errM != nil || errI != nil {
 		fmt.Fprintf(os.Stderr, "C10: chunk failed: model: %v worker: %v\n", errM, errI)
 		os.Exit(2)
@@ -1772,6 +2047,534 @@ func (w *c10World) raceFacet(c *lib.Ctx, nlines, rounds, procs int) {
 }
 
 // ---------------------------------------------------------------------------------------------
+// redefinition facet (both tiers): the classes of the arguments are redefined during the history
+// (other superclasses, directly or through a superclass) and instances made before and after a
+// redefinition are used side by side. The dispatcher only ever sees Hierarchy() of the arguments;
+// the worker reports it with every outcome and the model is asked with exactly those lists
+// (`C:` / `M:` operations), so a cache entry that outlives the precedence list it was built for
+// shows as a disagreement.
+//
+//   dyn <n> <op>*      k:<class>:<super.super|->   (defclass class (supers) ())
+//                      n:<slot>:<class>            slot := (make-instance 'class)
+//                      d… r…                       defmethod / remove-method as in histories
+//                      c:<slot.slot> m:<slot.slot> call / compute-applicable-methods with the objects in the slots
+//   reply: ok <hier>@<outcome> …   one word per c / m operation; hier = name.name/name.name
+//          (X<i>:<class> for a failing other operation)
+
+func (w *c10World) runDyn(line string) string {
+	words := strings.Fields(line)
+	if len(words) < 3 || words[0] != "dyn" {
+		return "bad-request dyn"
+	}
+	n, err := strconv.Atoi(words[1])
+	if err != nil || n < 1 || 3 < n {
+		return "bad-request dyn-n"
+	}
+	w.gensym++
+	g := fmt.Sprintf("c10y%d", w.gensym)
+	out := []string{"ok"}
+	if o := lib.EvalString(w.scope, fmt.Sprintf("(defgeneric %s (%s))", g, strings.Join([]string{"x", "y", "z"}[:n], " "))); !o.Ok {
+		return "ok Xdefgeneric:" + o.Class
+	}
+	slots := map[int]slip.Object{}
+	for i, word := range words[2:] {
+		parts := strings.Split(word, ":")
+		switch {
+		case parts[0] == "k" && len(parts) == 3:
+			cls, err := strconv.Atoi(parts[1])
+			if err != nil || cls < 0 || len(w.className) <= cls {
+				return "bad-request dyn-class"
+			}
+			var sups []string
+			if parts[2] != "-" {
+				ids, ok := c10Ints(parts[2])
+				if !ok {
+					return "bad-request dyn-supers"
+				}
+				for _, id := range ids {
+					if id < 0 || len(w.className) <= id {
+						return "bad-request dyn-supers"
+					}
+					sups = append(sups, w.className[id])
+				}
+			}
+			if o := lib.EvalString(w.scope, fmt.Sprintf("(defclass %s (%s) ())", w.className[cls], strings.Join(sups, " "))); !o.Ok {
+				out = append(out, fmt.Sprintf("X%d:%s", i, o.Class))
+			}
+		case parts[0] == "n" && len(parts) == 3:
+			slot, err1 := strconv.Atoi(parts[1])
+			cls, err2 := strconv.Atoi(parts[2])
+			if err1 != nil || err2 != nil || cls < 0 || len(w.className) <= cls {
+				return "bad-request dyn-new"
+			}
+			o := lib.EvalString(w.scope, fmt.Sprintf("(make-instance '%s)", w.className[cls]))
+			if !o.Ok {
+				out = append(out, fmt.Sprintf("X%d:%s", i, o.Class))
+				continue
+			}
+			slots[slot] = o.Value
+			w.scope.Let(slip.Symbol(fmt.Sprintf("c10s%d", slot)), o.Value)
+		case (parts[0] == "c" || parts[0] == "m") && len(parts) == 2:
+			ids, ok := c10Ints(parts[1])
+			if !ok || len(ids) != n {
+				return "bad-request dyn-call"
+			}
+			var hier, names []string
+			for _, slot := range ids {
+				obj, has := slots[slot]
+				if !has {
+					return "bad-request dyn-empty-slot"
+				}
+				var hs []string
+				for _, h := range obj.Hierarchy() {
+					hs = append(hs, strings.ToLower(string(h)))
+				}
+				hier = append(hier, strings.Join(hs, "."))
+				names = append(names, fmt.Sprintf("c10s%d", slot))
+			}
+			if parts[0] == "m" {
+				res := "M!"
+				if o := lib.EvalString(w.scope, fmt.Sprintf("(compute-applicable-methods '%s (list %s))", g, strings.Join(names, " "))); o.Ok {
+					res = c10MethodWord(o.Value)
+				} else {
+					res += o.Class
+				}
+				out = append(out, strings.Join(hier, "/")+"@"+res)
+				continue
+			}
+			w.log = w.log[:0]
+			o := lib.EvalString(w.scope, fmt.Sprintf("(%s %s)", g, strings.Join(names, " ")))
+			out = append(out, strings.Join(hier, "/")+"@"+w.outcomeWord(o))
+		default:
+			h, ok := c10Parse(fmt.Sprintf("disp run %d 0 0:0 %s", n, word))
+			if !ok || len(h.ops) != 1 || h.ops[0].observes() {
+				return "bad-request dyn-op"
+			}
+			if o := lib.EvalString(w.scope, w.form(g, n, h.ops[0])); !o.Ok {
+				out = append(out, fmt.Sprintf("X%d:%s", i, o.Class))
+			}
+		}
+	}
+	slip.CurrentPackage.Undefine(g)
+	return strings.Join(out, " ")
+}
+
+// outcomeWord renders the logged trace and the result of a call in the model's format.
+func (w *c10World) outcomeWord(o lib.Outcome) string {
+	tr := "-"
+	if 0 < len(w.log) {
+		tr = strings.Join(w.log, ",")
+	}
+	switch {
+	case o.Ok && o.Value == nil:
+		tr += "=nil"
+	case o.Ok:
+		if n, isFix := c10Fixnum(o.Value); isFix {
+			tr += "=" + strconv.FormatInt(n, 10)
+		} else {
+			tr += "=?" + strings.ReplaceAll(o.Text, " ", "_")
+		}
+	case o.Class == "no-applicable-method-error":
+		tr += "!na"
+	default:
+		tr += "!" + o.Class
+	}
+	return tr
+}
+
+// dynModel turns a dyn line and the worker's reply into the model request (`C:` / `M:` operations
+// with the reported hierarchies) and the implementation's outcome words. problem != "" when the
+// reply cannot be used (a failing operation, a hierarchy that does not end in t).
+func (w *c10World) dynModel(line, reply string) (mline string, impl []string, h c10Hist, problem string) {
+	words := strings.Fields(line)
+	rws := strings.Fields(reply)
+	if len(rws) == 0 || rws[0] != "ok" {
+		return "", nil, h, "worker: " + reply
+	}
+	rws = rws[1:]
+	n, _ := strconv.Atoi(words[1])
+	h.n = n
+	var mw []string
+	for _, word := range words[2:] {
+		switch word[0] {
+		case 'k', 'n':
+			continue
+		case 'c', 'm':
+			if len(rws) == 0 {
+				return "", nil, h, "missing outcome for " + word
+			}
+			if strings.HasPrefix(rws[0], "X") {
+				return "", nil, h, "operation failed: " + rws[0]
+			}
+			at := strings.IndexByte(rws[0], '@')
+			if at < 0 {
+				return "", nil, h, "malformed outcome " + rws[0]
+			}
+			var precs []string
+			for _, hs := range strings.Split(rws[0][:at], "/") {
+				var ids []int
+				names := strings.Split(hs, ".")
+				if names[len(names)-1] != "t" {
+					return "", nil, h, "Hierarchy() of an argument does not end in t: " + hs
+				}
+				for _, name := range names {
+					ids = append(ids, w.intern(name))
+				}
+				precs = append(precs, c10Join(ids))
+			}
+			mw = append(mw, strings.ToUpper(word[:1])+":"+strings.Join(precs, "/"))
+			impl = append(impl, rws[0][at+1:])
+			rws = rws[1:]
+		default:
+			one, ok := c10Parse(fmt.Sprintf("disp run %d 0 0:0 %s", n, word))
+			if !ok {
+				return "", nil, h, "bad word " + word
+			}
+			h.ops = append(h.ops, one.ops...)
+			mw = append(mw, c10ModelLine(word))
+		}
+	}
+	if 0 < len(rws) {
+		return "", nil, h, "operation failed: " + rws[0]
+	}
+	return fmt.Sprintf("disp run %d 0 0:0 %s", n, strings.Join(mw, " ")), impl, h, ""
+}
+
+// dynCheck compares one dyn line's reply with the model; returns "" or a description, the index
+// (among the c / m operations) of the first disagreement, and the aspect.
+func (w *c10World) dynCheck(c *lib.Ctx, line, reply string) (bad string, aspect string, calls int) {
+	mline, impl, h, problem := w.dynModel(line, reply)
+	if problem != "" {
+		return problem, "unusable-reply", 0
+	}
+	return dynCompare(mline, impl, h, c.Model([]string{mline})[0])
+}
+
+func dynCompare(mline string, impl []string, h c10Hist, modelReply string) (bad string, aspect string, calls int) {
+	model := strings.Fields(c10Canon(h, modelReply))[1:]
+	if len(model) != len(impl) {
+		return fmt.Sprintf("%d outcomes from the implementation, %d from the model", len(impl), len(model)), "unusable-reply", 0
+	}
+	for i := range impl {
+		if impl[i] != model[i] {
+			asp := "applicable-methods"
+			if !strings.HasPrefix(model[i], "M") {
+				hh := c10Hist{n: h.n, ops: append(append([]c10Op{}, h.ops...), c10Op{kind: 'c'})}
+				asp = c10Aspect(hh, len(hh.ops)-1, impl[i], model[i])
+			}
+			return fmt.Sprintf("observation %d: observed %s expected %s (model request: %s)", i, impl[i], model[i], mline), asp, len(impl)
+		}
+	}
+	return "", "", len(impl)
+}
+
+// the classes of the redefinition facet and the superclass lists they switch between
+func (w *c10World) dynVariants() (cm, cl int, mSup, lSup [][]int) {
+	p1, p2 := w.classID["c10p1"], w.classID["c10p2"]
+	cm, cl = w.classID["c10m"], w.classID["c10l"]
+	mSup = [][]int{{}, {p1}, {p2}, {p1, p2}, {p2, p1}}
+	lSup = [][]int{{cm}, {cm, p1}, {cm, p2}, {p1}, {p2}}
+	return
+}
+
+func c10SupWord(cls int, sup []int) string {
+	if len(sup) == 0 {
+		return fmt.Sprintf("k:%d:-", cls)
+	}
+	return fmt.Sprintf("k:%d:%s", cls, c10Join(sup))
+}
+
+func (w *c10World) dynPrologue(m, l []int) []string {
+	cm, cl, _, _ := w.dynVariants()
+	return []string{c10SupWord(w.classID["c10p1"], nil), c10SupWord(w.classID["c10p2"], nil), c10SupWord(cm, m), c10SupWord(cl, l)}
+}
+
+// dynSweep: seed-independent minimal cases — for every ordered pair of superclass lists of the
+// redefined class: methods on both parents and on t, a call with an instance made before the
+// redefinition (fills the cache), the redefinition, calls with an instance made after it, with the
+// old one, and with an instance of the subclass (redefined through its superclass).
+func (w *c10World) dynSweep() []string {
+	cm, cl, mSup, lSup := w.dynVariants()
+	p1, p2 := w.classID["c10p1"], w.classID["c10p2"]
+	var out []string
+	for _, a := range mSup {
+		for _, b := range mSup {
+			for _, q := range "pr" {
+				mode := 's'
+				if q == 'r' {
+					mode = 'g'
+				}
+				ops := w.dynPrologue(a, lSup[0])
+				ops = append(ops,
+					fmt.Sprintf("dp:0:11:s"), fmt.Sprintf("d%c:%d:12:%c", q, p1, mode), fmt.Sprintf("d%c:%d:13:%c", q, p2, mode),
+					fmt.Sprintf("n:0:%d", cm), fmt.Sprintf("n:2:%d", cl), "c:0", "c:2", "m:0",
+					c10SupWord(cm, b),
+					fmt.Sprintf("n:1:%d", cm), fmt.Sprintf("n:3:%d", cl), "c:1", "c:0", "c:3", "c:2", "m:1", "m:3")
+				out = append(out, "dyn 1 "+strings.Join(ops, " "))
+			}
+		}
+	}
+	for _, a := range lSup {
+		for _, b := range lSup {
+			ops := w.dynPrologue(mSup[1], a)
+			ops = append(ops,
+				fmt.Sprintf("dp:0.0:11:s"), fmt.Sprintf("dp:%d.0:12:s", p1), fmt.Sprintf("dp:0.%d:13:s", p2), fmt.Sprintf("db:%d.%d:14:s", cm, cm),
+				fmt.Sprintf("n:0:%d", cl), fmt.Sprintf("n:2:%d", cm), "c:0.0", "c:0.2", "c:2.0",
+				c10SupWord(cl, b),
+				fmt.Sprintf("n:1:%d", cl), "c:1.1", "c:0.0", "c:1.0", "c:0.1", "c:1.2", "m:1.0")
+			out = append(out, "dyn 2 "+strings.Join(ops, " "))
+		}
+	}
+	return out
+}
+
+// dynScenario: a random history with redefinitions and new instances in between
+func (w *c10World) dynScenario(r *lib.Rng) string {
+	cm, cl, mSup, lSup := w.dynVariants()
+	p1, p2 := w.classID["c10p1"], w.classID["c10p2"]
+	n := 1 + r.Intn(2)
+	specs := []int{p1, p2, cm, cl, 0, w.classID["standard-object"]}
+	ops := w.dynPrologue(mSup[r.Intn(len(mSup))], lSup[r.Intn(len(lSup))])
+	ops = append(ops, fmt.Sprintf("n:0:%d", cm), fmt.Sprintf("n:1:%d", cl))
+	filled := []int{0, 1}
+	var tuples [][]int
+	for i, k := 0, 3+r.Intn(5); i < k; i++ {
+		t := make([]int, n)
+		for j := range t {
+			t[j] = specs[r.Intn(len(specs))]
+		}
+		tuples = append(tuples, t)
+	}
+	id := 300
+	for i, k := 0, 2+r.Intn(3); i < k; i++ {
+		id++
+		op := c10Op{kind: 'd', qual: "pbarpp"[r.Intn(6)], key: tuples[r.Intn(len(tuples))], id: id, mode: 's'}
+		if op.qual == 'r' {
+			op.mode = 'g'
+		}
+		ops = append(ops, op.word())
+	}
+	slotsOf := func() string {
+		t := make([]int, n)
+		for j := range t {
+			t[j] = filled[r.Intn(len(filled))]
+		}
+		return c10Join(t)
+	}
+	for i, k := 0, 10+r.Intn(25); i < k; i++ {
+		switch x := r.Intn(100); {
+		case x < 35:
+			ops = append(ops, "c:"+slotsOf())
+		case x < 40:
+			ops = append(ops, "m:"+slotsOf())
+		case x < 62:
+			id++
+			op := c10Op{kind: 'd', qual: "pbarrp"[r.Intn(6)], key: tuples[r.Intn(len(tuples))], id: id, mode: 's'}
+			if op.qual == 'r' {
+				op.mode = "ggds"[r.Intn(4)]
+			}
+			ops = append(ops, op.word())
+		case x < 70:
+			ops = append(ops, c10Op{kind: 'r', qual: "pbar"[r.Intn(4)], key: tuples[r.Intn(len(tuples))]}.word())
+		case x < 85:
+			if r.Chance(60) {
+				ops = append(ops, c10SupWord(cm, mSup[r.Intn(len(mSup))]))
+			} else {
+				ops = append(ops, c10SupWord(cl, lSup[r.Intn(len(lSup))]))
+			}
+		default:
+			slot := r.Intn(5)
+			cls := cm
+			if r.Chance(45) {
+				cls = cl
+			}
+			ops = append(ops, fmt.Sprintf("n:%d:%d", slot, cls))
+			seen := false
+			for _, f := range filled {
+				if f == slot {
+					seen = true
+				}
+			}
+			if !seen {
+				filled = append(filled, slot)
+			}
+		}
+	}
+	ops = append(ops, "c:"+slotsOf())
+	return fmt.Sprintf("dyn %d %s", n, strings.Join(ops, " "))
+}
+
+// dynShrink removes operations (never the class prologue) while the line still disagrees with the
+// same aspect; runs in this process.
+func (w *c10World) dynShrink(c *lib.Ctx, line, aspect string) string {
+	fails := func(l string) bool {
+		bad, asp, _ := w.dynCheck(c, l, w.runDyn(l))
+		return bad != "" && asp == aspect
+	}
+	if !fails(line) {
+		return line
+	}
+	words := strings.Fields(line)
+	for changed := true; changed; {
+		changed = false
+		for i := len(words) - 1; 6 <= i; i-- {
+			cand := append(append([]string{}, words[:i]...), words[i+1:]...)
+			l := strings.Join(cand, " ")
+			if r := w.runDyn(l); strings.HasPrefix(r, "bad-request") {
+				continue
+			}
+			if fails(l) {
+				words, changed = cand, true
+			}
+		}
+	}
+	return strings.Join(words, " ")
+}
+
+func (w *c10World) dynFacet(c *lib.Ctx, random int) {
+	sweep := w.dynSweep()
+	lines := append([]string{}, sweep...)
+	for i := 0; i < random; i++ {
+		lines = append(lines, w.dynScenario(c.Rng))
+	}
+	// sharded over single-threaded worker processes (class definitions are process-global: every
+	// history starts by defining its four classes again)
+	const chunk = 2500
+	replies := make([]string, len(lines))
+	type part struct{ from, to int }
+	var parts []part
+	for i := 0; i < len(lines); i += chunk {
+		j := i + chunk
+		if len(lines) < j {
+			j = len(lines)
+		}
+		parts = append(parts, part{i, j})
+	}
+	errs := make([]error, len(parts))
+	sem := make(chan struct{}, c.Scale(4, 10))
+	var wg sync.WaitGroup
+	for pi, pt := range parts {
+		wg.Add(1)
+		go func(pi int, pt part) {
+			defer wg.Done()
+			sem <- struct{}{}
+			defer func() { <-sem }()
+			cmd := exec.Command(os.Args[0], "C10", "--root", c.Root)
+			cmd.Env = append(os.Environ(), "VH_C10_WORKER=1")
+			rs, err := c10Pipe(cmd, lines[pt.from:pt.to])
+			if err != nil {
+				errs[pi] = err
+				return
+			}
+			copy(replies[pt.from:pt.to], rs)
+		}(pi, pt)
+	}
+	wg.Wait()
+	for pi, err := range errs {
+		if err == nil {
+			continue
+		}
+		// a sequential single-threaded worker: a crash caused by a history is reproducible, find the line
+		for _, l := range lines[parts[pi].from:parts[pi].to] {
+			cmd := exec.Command(os.Args[0], "C10", "--root", c.Root)
+			cmd.Env = append(os.Environ(), "VH_C10_WORKER=1")
+			if _, err1 := c10Pipe(cmd, []string{l}); err1 != nil {
+				c.Report("facet=redefinition aspect=worker-crash", false, map[string]any{"dyn": l,
+					"observed": "the process evaluating the history terminated: " + err1.Error(), "expected": "every operation returns"})
+				return
+			}
+		}
+		fmt.Fprintf(os.Stderr, "C10: redefinition worker failed (not reproducible line by line): %v\n", err)
+		os.Exit(2)
+	}
+	// one batch through the model driver
+	type prepared struct {
+		mline   string
+		impl    []string
+		h       c10Hist
+		problem string
+		mi      int
+	}
+	preps := make([]prepared, len(lines))
+	var mlines []string
+	for i, l := range lines {
+		if strings.HasPrefix(replies[i], "bad-request") {
+			fmt.Fprintf(os.Stderr, "C10: request rejected: %q worker=%q\n", l, replies[i])
+			os.Exit(2)
+		}
+		p := &preps[i]
+		p.mline, p.impl, p.h, p.problem = w.dynModel(l, replies[i])
+		if p.problem == "" {
+			p.mi = len(mlines)
+			mlines = append(mlines, p.mline)
+		}
+	}
+	mreplies := c.Model(mlines)
+	seen := map[string]bool{}
+	calls, redefs, disagreements, twoLists := 0, 0, 0, 0
+	for i, l := range lines {
+		bad, aspect, k := preps[i].problem, "unusable-reply", 0
+		if bad == "" {
+			bad, aspect, k = dynCompare(preps[i].mline, preps[i].impl, preps[i].h, mreplies[preps[i].mi])
+		}
+		calls += k
+		redefs += strings.Count(l, " k:") - 4
+		{
+			// non-vacuity: one class name observed with two different precedence lists in this history
+			byHead := map[string]string{}
+			two := false
+			for _, rw := range strings.Fields(replies[i])[1:] {
+				if at := strings.IndexByte(rw, '@'); 0 < at {
+					for _, hs := range strings.Split(rw[:at], "/") {
+						head := strings.SplitN(hs, ".", 2)[0]
+						if prev, ok := byHead[head]; ok && prev != hs {
+							two = true
+						}
+						byHead[head] = hs
+					}
+				}
+			}
+			if two {
+				twoLists++
+			}
+		}
+		c.Ev.Case(l, true)
+		c.Ev.Hist("family", map[bool]string{true: "sweep:redefinition", false: "random-redefinition"}[i < len(sweep)])
+		if bad == "" {
+			continue
+		}
+		disagreements++
+		sig := fmt.Sprintf("facet=redefinition args=%s aspect=%s", strings.Fields(l)[1], aspect)
+		if seen[sig] {
+			continue
+		}
+		seen[sig] = true
+		min := l
+		if aspect != "unusable-reply" {
+			min = w.dynShrink(c, l, aspect)
+		}
+		bad2, _, _ := w.dynCheck(c, min, w.runDyn(min))
+		if bad2 == "" {
+			min, bad2 = l, bad
+		}
+		c.Report(sig, i < len(sweep), map[string]any{"family": "redefinition", "dyn": min, "original": l, "observed_vs_expected": bad2,
+			"classes":       fmt.Sprintf("0=t %d=standard-object %d=c10p1 %d=c10p2 %d=c10m %d=c10l", w.classID["standard-object"], w.classID["c10p1"], w.classID["c10p2"], w.classID["c10m"], w.classID["c10l"]),
+			"expected_from": "model:disp.run", "relies_on": []string{"SlipVerif.Dispatch.dispatch_history_independent", "SlipVerif.Dispatch.class_redefinition_coherent"},
+			"legend": "k:<class>:<supers> defclass (again); n:<slot>:<class> make-instance into the slot; c:/m: call / compute-applicable-methods with the objects in the slots"})
+	}
+	if 0 < disagreements {
+		c.Ev.Count("disagreements", disagreements)
+	}
+	c.Ev.Coverage["redefinition_histories"] = len(lines)
+	c.Ev.Coverage["redefinition_observations_compared"] = calls
+	c.Ev.Coverage["redefinition_redefinitions"] = redefs
+	c.Ev.Coverage["redefinition_histories_calling_one_class_name_with_two_precedence_lists"] = twoLists
+	if 0 < len(lines) {
+		c.Ev.Sample(map[string]any{"family": "redefinition", "dyn": lines[len(lines)-1], "reply": replies[len(lines)-1]})
+	}
+}
+
+// ---------------------------------------------------------------------------------------------
 // witness: locate the first disagreeing call, shrink the history, report
 
 func (w *c10World) firstDiff(h c10Hist, impl, model string) (callIdx int, iw, mw string, ok bool) {
@@ -1783,7 +2586,7 @@ func (w *c10World) firstDiff(h c10Hist, impl, model string) (callIdx int, iw, mw
 		if ii < len(iws) && strings.HasPrefix(iws[ii], fmt.Sprintf("X%d:", i)) {
 			return i, iws[ii], "(defined)", true
 		}
-		if op.kind != 'c' {
+		if !op.observes() {
 			continue
 		}
 		var a, b string
@@ -1820,13 +2623,16 @@ func (w *c10World) shrink(c *lib.Ctx, h c10Hist, callIdx int) (c10Hist, int) {
 		idx, _, _, bad := w.firstDiff(cand, impl, model)
 		return bad && idx == len(cand.ops)-1
 	}
-	if h.ops[callIdx].kind != 'c' || !fails(h) {
+	if !h.ops[callIdx].observes() || !fails(h) {
 		return h, callIdx
 	}
 	for changed := true; changed; {
 		changed = false
 		for i := 0; i < len(h.ops)-1; i++ {
-			cand := c10Hist{n: h.n, implicit: h.implicit}
+			cand := c10Hist{n: h.n, implicit: h.implicit, inGeneric: h.inGeneric, optional: h.optional}
+			if i < h.inGeneric {
+				cand.inGeneric--
+			}
 			cand.ops = append(append([]c10Op{}, h.ops[:i]...), h.ops[i+1:]...)
 			if cand.implicit && (len(cand.ops) == 0 || cand.ops[0].kind != 'd') {
 				cand.implicit = false
@@ -1846,16 +2652,25 @@ func (w *c10World) report(c *lib.Ctx, seen map[string]bool, family string, sweep
 	if !ok {
 		return
 	}
+	if strings.HasPrefix(m.impl, "crash ") {
+		c.Ev.Count("disagreements", 1)
+		if !seen["aspect=worker-crash"] {
+			seen["aspect=worker-crash"] = true
+			c.Report(fmt.Sprintf("args=%d aspect=worker-crash", h.n), sweep, map[string]any{"family": family, "history": m.line, "input": w.forms("g", h),
+				"observed": "the process evaluating this history terminated (three times in a row, then alone): " + m.impl, "expected": "every operation returns"})
+		}
+		return
+	}
 	idx, iw, mw, bad := w.firstDiff(h, m.impl, m.model)
 	if !bad {
 		return
 	}
 	aspect := "mutation-error"
-	if h.ops[idx].kind == 'c' {
+	if h.ops[idx].observes() {
 		aspect = c10Aspect(h, idx, iw, mw)
 	}
 	var sig string
-	if h.ops[idx].kind == 'c' {
+	if h.ops[idx].observes() {
 		sig = c10Signature(w, h, idx, aspect)
 	} else {
 		sig = fmt.Sprintf("args=%d op=%s aspect=%s:%s", h.n, strings.SplitN(h.ops[idx].word(), ":", 2)[0], aspect, iw)
@@ -1866,14 +2681,14 @@ func (w *c10World) report(c *lib.Ctx, seen map[string]bool, family string, sweep
 	}
 	seen[sig] = true
 	min, midx := h, idx
-	if h.ops[idx].kind == 'c' && len(c.Violations) < 25 && len(seen) <= 40 { // only the first 25 violations get a replay file
+	if h.ops[idx].observes() && len(c.Violations) < 25 && len(seen) <= 40 { // only the first 25 violations get a replay file
 		min, midx = w.shrink(c, h, idx)
 	}
 	impl, model := w.check(c, min)
 	_, iw2, mw2, still := w.firstDiff(min, impl, model)
 	if !still { // flaky: keep the original observation
 		min, midx, iw2, mw2 = h, idx, iw, mw
-	} else if min.ops[midx].kind == 'c' {
+	} else if min.ops[midx].observes() {
 		// the signature is that of the minimal history (stable across seeds and families)
 		sig = c10Signature(w, min, midx, c10Aspect(min, midx, iw2, mw2))
 	}
@@ -1886,8 +2701,13 @@ func (w *c10World) report(c *lib.Ctx, seen map[string]bool, family string, sweep
 		"expected":      mw2,
 		"expected_from": "model:disp.run",
 		"original":      m.line,
-		"relies_on":     []string{"SlipVerif.Dispatch.dispatch_history_independent", "SlipVerif.Dispatch.history_outcomes_eq_spec"},
-		"legend":        "m<id> body ran; e<id>+/- :around body entered with next-method-p true/false; l<id> :around body left; =<id> value; !na no-applicable-method; !error other condition",
+		"relies_on": func() []string {
+			if min.ops[midx].kind == 'm' {
+				return []string{"SlipVerif.Dispatch.methods_history_independent", "SlipVerif.Dispatch.compMethList_eq_spec"}
+			}
+			return []string{"SlipVerif.Dispatch.dispatch_history_independent", "SlipVerif.Dispatch.history_outcomes_eq_spec"}
+		}(),
+		"legend": "m<id> body ran; e<id>+/- :around body entered with next-method-p true/false; l<id> :around body left; =<id> value; !na no-applicable-method; !error other condition; M<q><id>,… the list of compute-applicable-methods (q: r around, b before, p primary, a after)",
 	})
 }
 
@@ -1961,6 +2781,16 @@ func c10Replay(c *lib.Ctx, w *c10World) {
 		fmt.Printf("replay of the race batch: the process terminated in %d of 10 runs\n", crashes)
 		if 0 < crashes {
 			c.Report("replay", false, map[string]any{"race_batch": batch})
+		}
+		return
+	}
+	if dl, _ := rec["dyn"].(string); dl != "" {
+		reply := w.runDyn(dl)
+		bad, aspect, _ := w.dynCheck(c, dl, reply)
+		fmt.Printf("replay %s\n  implementation: %s\n", dl, reply)
+		if bad != "" {
+			fmt.Printf("  %s (%s)\n", bad, aspect)
+			c.Report("replay", false, map[string]any{"dyn": dl, "observed_vs_expected": bad})
 		}
 		return
 	}
@@ -2090,6 +2920,43 @@ func runC10(c *lib.Ctx) {
 			gen: func(i int) c10Hist { return hs[i] }})
 	}
 	{
+		// spelling sweep: methods given as :method options of defgeneric (each qualifier, two
+		// specializer tuples, 1–3 arguments), then replaced by defmethod or from Go
+		// (generic.DefCallerMethod) and removed; with and without an &optional parameter
+		var hs []c10Hist
+		for n := 1; n <= 3; n++ {
+			for _, q := range "pbar" {
+				for k := 1; k <= 6; k++ {
+					optional := 3 < k
+					k := (k-1)%3 + 1
+					spec := make([]int, n)
+					for i := range spec {
+						spec[i] = w.classID["c10a"]
+					}
+					gen := make([]int, n) // all t
+					arg := make([]int, n)
+					for i := range arg {
+						arg[i] = w.classID["c10c"]
+					}
+					hs = append(hs, c10Hist{n: n, inGeneric: k, optional: optional, ops: []c10Op{
+						{kind: 'd', qual: byte(q), key: spec, id: 11, mode: 'g'},
+						{kind: 'd', qual: 'p', key: gen, id: 12, mode: 's', bare: n == 2},
+						{kind: 'd', qual: byte(q), key: gen, id: 13, mode: 'g'},
+						{kind: 'c', key: arg},
+						{kind: 'm', key: arg},
+						{kind: 'd', qual: byte(q), key: spec, id: 14, mode: 'g', viaGo: k != 2},
+						{kind: 'c', key: arg},
+						{kind: 'r', qual: byte(q), key: spec},
+						{kind: 'c', key: arg},
+						{kind: 'm', key: arg},
+					}})
+				}
+			}
+		}
+		fams = append(fams, c10Family{name: "sweep:defgeneric-method-option", label: "sweep:defgeneric-method-option", sweep: true, count: len(hs),
+			gen: func(i int) c10Hist { return hs[i] }})
+	}
+	{
 		var hs []c10Hist
 		for i, n := 0, c.Scale(4000, 80000); i < n; i++ {
 			hs = append(hs, w.randomHistory(c.Rng))
@@ -2168,6 +3035,9 @@ func runC10(c *lib.Ctx) {
 							c.Ev.Hist("op", "defmethod-"+string(op.qual))
 						case 'r':
 							c.Ev.Hist("op", "remove-"+string(op.qual))
+						case 'm':
+							c.Ev.Hist("op", "compute-applicable-methods")
+							calls++
 						default:
 							c.Ev.Hist("op", "call")
 							calls++
@@ -2204,6 +3074,9 @@ func runC10(c *lib.Ctx) {
 			}
 		}
 		c.Ev.Coverage["model_run_vs_spec_sampled"] = len(ra)
+	}
+	if only := os.Getenv("VH_C10_ONLY"); only == "" || only == "redef" {
+		w.dynFacet(c, c.Scale(1500, 40000))
 	}
 	if only := os.Getenv("VH_C10_ONLY"); only == "" || only == "race" {
 		// quick: 240 generic functions x 250 rounds in 6 processes; thorough: 1200 x 300 in 10
